@@ -515,9 +515,17 @@ with sc_segments (fuel : nat) (ext aenv tenv : list text) (level : list tree) {s
             let aenv' := flat_map item_alias items ++ aenv in
             forallb (item_table_ok tenv ext) items && forallb item_alias_ok items &&
             refs_ok aenv' false before &&
-            forallb (fun it => refs_ok aenv' false (item_rest it)) items &&
+            (* the items of one FROM list are read left to right: an item (UNNEST(..), JSON_EACH(..), a
+               parenthesised query) may mention the aliases of the items BEFORE it and of enclosing queries *)
+            (fix go (env : list text) (its : list (list tree)) : bool :=
+               match its with
+               | [] => true
+               | it :: its' =>
+                   refs_ok env false (item_rest it) && forallb (sc_level f ext env tenv) (children it) &&
+                   go (item_alias it ++ env) its'
+               end) aenv items &&
             refs_ok aenv' false tail &&
-            forallb (sc_level f ext aenv' tenv) (children seg)
+            forallb (sc_level f ext aenv' tenv) (children before ++ children tail)
         | None =>
             refs_ok aenv false seg && forallb (sc_level f ext aenv tenv) (children seg)
         end) (split_on (is_kw kw_union) level)
